@@ -179,15 +179,15 @@ def cands_c(s, pos, parent, rng):
             inner = dict(s)
             inner["enum"] = rest
             outer = {"oneOf": [dict(NULL), inner]}
-            for k in ("default", "description"):
+            for k in ("default", "description", "example"):
                 if k in s:
                     outer[k] = s[k]
             out.append(("c:enum-null->union", outer, None if g_enum_null(s) else "enum_null_typelist_double_expansion"))
-    if set(s) <= {"oneOf", "default", "description"} and isinstance(s.get("oneOf"), list) and len(s["oneOf"]) == 2 and s["oneOf"][0] == NULL:
+    if set(s) <= {"oneOf", "default", "description", "example"} and isinstance(s.get("oneOf"), list) and len(s["oneOf"]) == 2 and s["oneOf"][0] == NULL:
         e = s["oneOf"][1]
         if (isinstance(e, dict) and "$ref" not in e and isinstance(e.get("enum"), list) and None not in e["enum"] and homogeneous(e["enum"])
                 and not any(e.get(k) for k in ("anyOf", "oneOf", "allOf")) and e.get("default") == s.get("default")
-                and e.get("description") == s.get("description") and g_enum_null(e)):
+                and e.get("description") == s.get("description") and e.get("example") == s.get("example") and g_enum_null(e)):
             n = dict(e)
             vals = list(e["enum"])
             vals.insert(rng.randint(0, len(vals)), None)
